@@ -55,6 +55,7 @@ SEED_FACTORS = [1.0, 1.07, 0.93, 1.31, 0.77, 1.19]
 GATE = 1e-6                 # admission: |x(rtol) - x(rtol/100)| / max(1,|x|) over all six Love numbers of the run
 TOL = {
     'nondim': 1e-5,
+    'nondim-result': 1e-4,     # layer-edge radial functions nd=T vs nd=F, relative to the row maximum (calibrated: see DESIGN 8.9)
     'rescale': 1e-5,
     'solve_for': 1e-13,
     'integrator': 3e-5,
@@ -155,7 +156,9 @@ def _run(case, N=N_BASE, tight=True, scale=1.0, nd=True, method='DOP853', solve_
     love = {nm: np.array(s['love'][i]) for i, nm in enumerate(names)}
     if s['love'].shape != (len(names), 3):
         return dict(status='shape', msg=str(s['love'].shape))
-    return dict(status='ok', love=love)
+    # radial functions at the first and last slice of every layer (interior slices carry dense-output noise, see C04 notes)
+    edges = sorted({i * N for i in range(len(layers))} | {(i + 1) * N - 1 for i in range(len(layers))})
+    return dict(status='ok', love=love, edge_result=np.array(s['result'])[:, edges])
 
 
 def _diff(la, lb, names=None):
@@ -246,6 +249,23 @@ def run_case(case):
             return exc_or_inadmissible(o, 'transformed')
         compare(o, ('tidal', 'loading'), 'C03/nondimensionalize/T-vs-F', 'nd=False')
         check_sm(o['love'], 'nd=False')
+        # the returned radial functions are in physical units either way: same values at every layer edge, per component
+        import numpy as np
+        ra, rb = base['edge_result'], o['edge_result']
+        worst = 0.0
+        if ra.shape != rb.shape or not np.array_equal(np.isnan(ra), np.isnan(rb)):
+            V('C03/nondimensionalize/radial-functions/nan-pattern-or-shape', shape_T=list(ra.shape), shape_F=list(rb.shape))
+        else:
+            for row in range(ra.shape[0]):
+                a, b = ra[row], rb[row]
+                ok = ~np.isnan(a)
+                if ok.any():
+                    sc = max(float(np.max(np.abs(a[ok]))), float(np.max(np.abs(b[ok]))))
+                    if sc > 0:
+                        worst = max(worst, float(np.max(np.abs(a[ok] - b[ok])) / sc))
+            meas['nondim-result'] = worst
+            if not worst <= TOL['nondim-result']:
+                V('C03/nondimensionalize/radial-functions/T-vs-F', worst_relative_difference=worst)
     elif rel == 'rescale':
         o = _run(case, scale=case['a'], nd=case['nd'])
         if o['status'] != 'ok':
